@@ -458,7 +458,28 @@ func c02R4(c *Ctx) {
 	eachInstr(fn, func(r instrRef) {
 		if f, isLock, ok := lockOp(r.I); ok && !isLock && f == L {
 			if _, isDefer := r.I.(*ssa.Defer); !isDefer {
-				direct++
+				// an explicit unlock on an early-exit path (`if previousStage == nil { l.lock.Unlock(); return }`) is the
+				// same release on return; what the rule excludes is an unlock after which the function goes on: to a Lock,
+				// a DAG operation, a data store or the notification
+				goesOn := c.findPath(fn, r.I, func(ssa.Instruction) bool { return false }, func(in ssa.Instruction) bool {
+					if f2, isLock2, ok2 := lockOp(in); ok2 && isLock2 && f2 == L {
+						return true
+					}
+					switch x := in.(type) {
+					case *ssa.MapUpdate:
+						return true
+					case *ssa.Call:
+						cc := x.Common()
+						if cc.IsInvoke() && strings.Contains(cc.Value.Type().String(), "dgraph.") {
+							return true
+						}
+						return cc.StaticCallee() == notify
+					}
+					return false
+				})
+				if goesOn != nil {
+					direct++
+				}
 			}
 		}
 	})
